@@ -132,6 +132,59 @@ class Recorder:
     def error(self, text):
         self.harness_errors.append(text)
 
+    # ---- parallel work -----------------------------------------------------------------------
+    def export(self):
+        return {k: getattr(self, k) for k in ("obligs", "violations", "assumptions", "functions", "bounds", "samples", "structures",
+                                              "notes", "solver_s", "queries", "paths", "vacuity", "harness_errors", "extra")}
+
+    def merge(self, d):
+        self.obligs += d["obligs"]
+        for v in d["violations"]:
+            for _ in range(v.get("count", 1)):
+                self.violation(v["signature"], v["what"], v["replay"], v["replayed"])
+        for a in d["assumptions"]:
+            self.assume(a)
+        self.functions.update(d["functions"])
+        self.bounds.update(d["bounds"])
+        for sm in d["samples"]:
+            self.sample(sm)
+        for st in d["structures"]:
+            self.structure(st)
+        self.notes += d["notes"]
+        self.solver_s += d["solver_s"]
+        for k, v in d["queries"].items():
+            self.queries[k] = self.queries.get(k, 0) + v
+        self.paths += d["paths"]
+        self.vacuity += d["vacuity"]
+        self.harness_errors += d["harness_errors"]
+        for k, v in d["extra"].items():
+            if isinstance(v, list):
+                cur = self.extra.setdefault(k, [])
+                cur += [x for x in v if x not in cur]
+            elif isinstance(v, (int, float)) and not isinstance(v, bool):
+                self.extra[k] = self.extra.get(k, 0) + v
+            else:
+                self.extra.setdefault(k, v)
+
+    def parallel(self, worker, items, procs=None, timeout_s=None):
+        """Runs worker(sub_recorder, item) for every item in forked processes and merges the results.
+        A worker that dies or times out is a harness error (never a pass)."""
+        import multiprocessing as mp
+        procs = procs or min(len(items), int(os.environ.get("VERIF_PROCS", "0") or 0) or os.cpu_count() or 4)
+        if procs <= 1 or len(items) <= 1:
+            for it in items:
+                worker(self, it)
+            return
+        ctx = mp.get_context("fork")
+        with ctx.Pool(procs, maxtasksperchild=1) as pool:
+            res = [(it, pool.apply_async(_run_worker, (worker, self.pid, self.tier, self.seed, it))) for it in items]
+            for it, r in res:
+                try:
+                    d = r.get(timeout=timeout_s)
+                    self.merge(d)
+                except Exception as e:  # noqa
+                    self.error("worker for %r failed: %s: %s" % (it, type(e).__name__, str(e)[:300]))
+
     # ---- finishing ---------------------------------------------------------------------------
     def finish(self):
         known = {"findings": [], "fixed": []}
@@ -209,6 +262,20 @@ class Recorder:
                 print("HARNESS-ERROR: %s" % e)
             return 2
         return 0
+
+
+def _run_worker(worker, pid, tier, seed, item):
+    rec = Recorder(pid, tier, seed)
+    try:
+        worker(rec, item)
+    except HarnessError as e:
+        rec.error("HarnessError in %r: %s" % (item, e))
+    except Exception as e:  # noqa
+        rec.error("unexpected %s in %r: %s\n%s" % (type(e).__name__, item, e, traceback.format_exc()[-1200:]))
+    d = rec.export()
+    for v in d["violations"]:
+        v["replay"] = jsonable(v["replay"])
+    return json.loads(json.dumps(d, default=str))
 
 
 def tier_from_env(default="quick"):
